@@ -53,9 +53,18 @@ claim("C12",
       "The mirror-image, ID-recycling and iterator-cursor mechanisms of C12 decided for every method of the 8 map-backed graph types, uid.Set and 30 iterator types in the default and safe builds. Histories are not explored; dense-matrix graphs, Reset, and panic atomicity are NOT decided.",
       TRUST, "DESIGN.md §3.9, §4 C12")
 
-PENDING = "check not built yet in this round (see DESIGN.md §8 build order); not claimed until it is"
-for p in ["C16","C17","C18"]:
-    na(p, PENDING)
+claim("C16",
+      "custom CFG taint/validation analysis of decoders, self-comparison lint, validity-gate must-pass analysis, generated-twin unification",
+      "The decoder-totality mechanisms of C16 decided for all paths of the binary decoders and graph6 accessors: decoded products are overflow-guarded, decoded shift counts/sizes are range-checked, variable-length fields are length-checked, compatibility comparisons are non-trivial, raw accesses are behind IsValid, hll64.go mirrors hll32.go. Round trips, DOT/N-Quads grammars and RDF canonicalisation are NOT decided.",
+      TRUST, "DESIGN.md §3.10, §4 C16")
+claim("C17",
+      "custom CFG field-definition analysis of Reset, pointwise/sibling lint over window functions, bounds-twin comparison",
+      "The structural clauses of C17 decided: Reset redefines every field on every path, window functions are pointwise and agree with their Complex siblings in weight expression, fftpack's bounds twins agree. The transforms' arithmetic is NOT decided.",
+      TRUST, "DESIGN.md §3.11, §4 C17")
+claim("C18",
+      "exact constant evaluation of tables in the source (rationals / 320-bit floats); serial-concurrent sibling lint",
+      "Table-level exactness decided without execution: stencil moment conditions in exact rationals, every tabulated Gauss-Legendre node/weight checked against P_n to 1e-19 with shape, positivity and sum, Gauss-Hermite shape/symmetry/sum; OriginKnown handled alike by serial and concurrent fd code. Asymptotic quadrature branch, Simpson/Romberg, interpolation and dual numbers are NOT decided.",
+      TRUST, "DESIGN.md §3.11, §4 C18")
 
 na("C10", "every clause is an identity between floating-point values of different calls (permutation/affine invariance, quantile coherence, PSD-ness); no clause is visible in the shape of the code, so no sound static rule applies")
 na("C11", "consistency of CDF/Quantile/moments/samplers and special-function identities are numerical facts about values; the only structural handle (Prob = exp(LogProb) by delegation) would be a frozen source fragment")
